@@ -113,6 +113,7 @@ def corpus():
           mk_profile(ONE, (0.0, 0.0), (4.0, 2.0), 3, ["shear", [0.5]], [7.0], None, None, "corpus-profile"),
           mk_profile(ONE * 2, (1.0, -1.0), (1.0, 5.0), 5, None, None, ("y", "x"), ["u", "v"], "corpus-profile-vertical"),
           mk_profile(ONE, (-2.0, 1.0), (4.0, 3.0), 7, ["sinh", [4.0]], None, None, None, "corpus-profile"),
+          mk_profile(ONE, (1.5, -2.0), (1.5, -2.0), 4, None, None, None, None, "corpus-profile-zero-length"),
           mk_scatter(ONE, [0.0, 4.0, 0.0, 2.0], None, 5, 0, None, None, None, None, "corpus-scatter")]
     for k, which in enumerate(FITTED):
         cs.append(mk_fitted(which, 11 + k, (3, 4), None, "fitted-" + which))
@@ -182,6 +183,8 @@ def generate(rng, tier):
         elif u < 0.9:
             p1 = (rng.randint(-40, 40) / 4.0, rng.randint(-40, 40) / 4.0)
             p2 = (rng.randint(-40, 40) / 4.0, rng.randint(-40, 40) / 4.0)
+            if rng.random() < 0.08:
+                p2 = p1                      # sampling a single location: size copies of the point at distance 0
             size = rng.choice([1, 2, 3, 5, 9, 0]) if rng.random() < 0.4 else rng.randint(1, 12)
             extra = None if rng.random() < 0.7 else [rng.randint(-8, 8) / 2.0]
             pr = rand_proj(rng, invertible=True)
@@ -447,7 +450,7 @@ def oracle(case, io):
                 for j, x in enumerate(east):
                     px, py = (x, y) if f is None else f(x, y)
                     v = _poly(coefs, k, px, py)
-                    if abs(arr[i][j] - v) > 1e-9 * max(1.0, abs(v)):
+                    if not (abs(arr[i][j] - v) <= 1e-9 * max(1.0, abs(v))):
                         return (f"component {k}: value at row {i}, column {j} is {arr[i][j]} but the prediction at "
                                 f"(easting[{j}], northing[{i}]) = ({x}, {y}){' projected' if f else ''} is {v}")
         return None
@@ -472,13 +475,13 @@ def oracle(case, io):
             x, y = q1[0] + fr * (q2[0] - q1[0]), q1[1] + fr * (q2[1] - q1[1])
             bx, by = (x, y) if f is None else f(x, y, inverse=True)
             d2 = fr * fr * ((q2[0] - q1[0]) ** 2 + (q2[1] - q1[1]) ** 2)
-            if abs(cols[d[1]][t] - bx) > 1e-9 * sc or abs(cols[d[0]][t] - by) > 1e-9 * sc:
+            if not (abs(cols[d[1]][t] - bx) <= 1e-9 * sc and abs(cols[d[0]][t] - by) <= 1e-9 * sc):      # (NaN fails too)
                 return f"profile point {t}: returned coordinates are not the (inverse-projected) evenly spaced point"
-            if abs(cols["distance"][t] - d2) > 1e-8 * sc * sc:
+            if not (abs(cols["distance"][t] - d2) <= 1e-8 * sc * sc):
                 return f"profile point {t}: distance is not the Cartesian distance from the first point in projected units"
             for k, nm in enumerate(expn):
                 v = _poly(coefs, k, x, y)
-                if abs(cols[nm][t] - v) > 1e-8 * max(1.0, abs(v)):
+                if not (abs(cols[nm][t] - v) <= 1e-8 * max(1.0, abs(v))):
                     return f"profile point {t} component {k}: {cols[nm][t]} is not the prediction {v} at the projected point"
         return None
     if fn == "scatter":
@@ -502,7 +505,7 @@ def oracle(case, io):
             px, py = (x, y) if f is None else f(x, y)
             for k, nm in enumerate(expn):
                 v = _poly(coefs, k, px, py)
-                if abs(cols[nm][t] - v) > 1e-9 * max(1.0, abs(v)):
+                if not (abs(cols[nm][t] - v) <= 1e-9 * max(1.0, abs(v))):
                     return f"scatter row {t} component {k}: not the prediction at its own (projected) point"
         return None
     return None
